@@ -12,6 +12,7 @@ var ownTriggers = map[string][]string{
 	"C01": {"len-merge-put"},
 	"C02": {"fail-in-commit", "rollback-insert", "phantom-reserved"},
 	"C04": {"union-after-clear", "agg-missing-value"},
+	"C05": {"len-merge-put"},
 	"C08": {"snapshot-reserved"},
 	"C11": {"put-delete", "merge-absent"},
 	"C12": {"dup-key-in-txn", "concurrent-key-insert"},
